@@ -7,6 +7,14 @@ instance attribute and module-level call result as value terms, and runs the rea
 (io.generate_pyi) on the same source, converting the inferred AST to type terms.
 code -> spec: TLC (TraceC01.tla / Soundness.tla) judges Sound: every observed value is admitted
 by the declared type (Admits of PytdTypes.tla, soundness reading, the program's own hierarchy).
+
+A failing slot is attributed to a known root cause only by a counterfactual that TLC judges as
+well, tried in this order: (1) call cache: same program, skip_repeat_calls=False; (2)
+simplify_variable: same program, that optimisation replaced by the identity in the worker;
+(3) "ret" slots, signature inferred in the module's final state: Soundness.tla FinalStateSlotOK =
+ReadsRebound (from the program term) and admitted by the stub of the program cut off right before
+the calling statement.  Anything else is keyed by the exact input
+(C01:input:<sha1(src)[:12]>:<kind>:<name>); known findings: known_findings.d/C01.json.
 """
 import argparse
 import hashlib
@@ -211,7 +219,7 @@ def main():
     idxs = sorted(i for i in open_ if open_[i])
     if not idxs:
       return
-    cf_infs = pyt.batch(worker, [keep[i][0]["src"] for i in idxs], procs=8, chunksize=1)
+    cf_infs = pyt.batch(worker, [keep[i][0]["src"] for i in idxs], procs=min(8, len(idxs)), chunksize=1)
     cf_cases, cf_idx = [], []
     for i, inf2 in zip(idxs, cf_infs):
       if inf2["outcome"] == "result":
@@ -253,7 +261,7 @@ def main():
     stmts_of = {i: keep[i][0]["stmts"] for i, _ in fs_jobs}
     pre_srcs = sorted({(i, s["site"]) for i, s in fs_jobs})
     pre_infs = pyt.batch(infer, ["".join(progterms.stmt(x) for x in stmts_of[i][:site - 1])
-                                 for i, site in pre_srcs], procs=8, chunksize=1)
+                                 for i, site in pre_srcs], procs=min(8, len(pre_srcs)), chunksize=1)
     pre = dict(zip(pre_srcs, pre_infs))
     fs_cases, fs_keep = [], []
     for i, s in fs_jobs:
